@@ -69,10 +69,11 @@ def unsigned_octets(v):
 
 class Oer(object):
 
-    def __init__(self, env, numeric=False, encode_defaults=False):
+    def __init__(self, env, numeric=False, encode_defaults=False, encode_addition_defaults=False):
         self.env = env
         self.numeric = numeric
-        self.encode_defaults = encode_defaults
+        self.encode_defaults = encode_defaults                      # sender's option for root components
+        self.encode_addition_defaults = encode_addition_defaults    # ... and for extension additions
         self.default_seen = False        # a DEFAULT-valued component was met (sender's option exists)
 
     def encode(self, mod, t, v):
@@ -201,14 +202,14 @@ class Oer(object):
         d = V.to_numeric(self.env, mod, c.t, c.default) if self.numeric else c.default
         return V.canon(self.env, mod, c.t, val, self.numeric) == V.canon(self.env, mod, c.t, d, self.numeric)
 
-    def presence(self, mod, comps, v):
+    def presence(self, mod, comps, v, addition=False):
         present = []
         for c in comps:
             if c.optional or c.has_default:
                 p = c.name in v
                 if p and c.has_default and self.is_default(mod, c, v[c.name]):
                     self.default_seen = True
-                    p = self.encode_defaults
+                    p = self.encode_addition_defaults if addition else self.encode_defaults
                 present.append(p)
             else:
                 if c.name not in v:
@@ -229,9 +230,9 @@ class Oer(object):
             out.append(x)
         return bytes(out)
 
-    def enc_comps(self, mod, comps, v, ext_bit=None):
+    def enc_comps(self, mod, comps, v, ext_bit=None, addition=False):
         """SEQUENCE-like encoding of a component list: preamble + values."""
-        present = self.presence(mod, comps, v)
+        present = self.presence(mod, comps, v, addition)
         bits = [] if ext_bit is None else [ext_bit]
         for c, p in zip(comps, present):
             if c.optional or c.has_default:
@@ -249,12 +250,15 @@ class Oer(object):
         add_present = []
         for a in additions:
             if isinstance(a, Group):
-                add_present.append(any(c.name in v for c in a.comps))
+                here = [c for c in a.comps if c.name in v]
+                if here and all(c.has_default and self.is_default(r.mod, c, v[c.name]) for c in here):
+                    raise Undecided('addition group with only DEFAULT-valued components')
+                add_present.append(bool(here))
             else:
                 p = a.name in v
                 if p and a.has_default and self.is_default(r.mod, a, v[a.name]):
                     self.default_seen = True
-                    p = self.encode_defaults
+                    p = self.encode_addition_defaults
                 add_present.append(p)
         any_add = any(add_present)
         out = self.enc_comps(r.mod, self.root_order(r), v, (1 if any_add else 0) if ext else None)
@@ -266,7 +270,7 @@ class Oer(object):
                 if not p:
                     continue
                 if isinstance(a, Group):
-                    inner = self.enc_comps(r.mod, a.comps, v)
+                    inner = self.enc_comps(r.mod, a.comps, v, addition=True)
                 else:
                     inner = self.enc(r.mod, a.t, v[a.name])
                 out += length(len(inner)) + inner
@@ -298,7 +302,8 @@ def encode_variants(env, mod, t, v, numeric=False):
     canon = m.encode(mod, t, v)
     ok = {canon}
     if m.default_seen:
-        ok.add(Oer(env, numeric, encode_defaults=True).encode(mod, t, v))
+        for rd, ad in ((True, False), (False, True), (True, True)):
+            ok.add(Oer(env, numeric, encode_defaults=rd, encode_addition_defaults=ad).encode(mod, t, v))
     return canon, ok
 
 
